@@ -1000,7 +1000,19 @@ def check_c19(tier, seed, log=print):
     ui_idx = [i for i, c in enumerate(cases) if i not in iso and (caps[i] is None or caps[i].verdict not in ('NOTENUM', 'LEXERR'))]
     if tier == 'quick':
         ui_idx = ui_idx[:260]
+    # accepted definitions whose callbacks are functions defined next to the enum (only rustc can judge them): names a user may
+    # well choose and the generated code may use itself
+    HYG = [F.HDR + '\npub enum T {\n    #[regex("[a-z]+", %s)] A,\n    #[token("=")] Eq,\n}\nfn %s<\'s>(_lex: &mut logos::Lexer<\'s, T>) {}' % (nm, nm)
+           for nm in ('state0', 'state1', 'lex', 'offset', 'context', 'cb_result', 'token', 'action', 'callback')]
+    # (a crate of their own: the malformed stream stops rustc before it checks types)
+    per_h, other_h, rc_h, err_h = U.run_ui('ui19h', HYG)
     per, other, rc, err = U.run_ui('ui19', [cases[i]['src'] for i in ui_idx])
+    run.coverage['callbacks_named_like_generated_items'] = dict(cases=len(HYG), compile=sum(1 for m_ in per_h if not m_))
+    for src_h, msgs in zip(HYG, per_h):
+        if msgs:
+            run.violation('does-not-compile', dict(definition=src_h, messages=msgs[:3], entry='rustc (stable) procedural macro, default (tail-call) code generator',
+                                                   what='the derive accepts the definition and the implementation it returns does not compile: the name of the callback is taken by an item of the generated code'),
+                          key='uicompile|' + src_h)
     ui_panics = 0
     for i, msgs in zip(ui_idx, per):
         pan = [m_ for m_ in msgs if 'panicked' in m_]
